@@ -1,4 +1,5 @@
 import NbioVerif.Properties.C01
+import NbioVerif.Lemmas.ConnDrain
 /-!
 # C04 Flush liveness (safety core + progress)
 
@@ -36,6 +37,64 @@ theorem c04_armed (g : Cfg) (ops : List Op) :
     cases hdis : s.disarmed with
     | false => exact Or.inl ⟨hr, by simpa using hk, hdis⟩
     | true => exact Or.inr (Or.inr (ha.dis hc hdis))
+
+theorem invE_run (g : Cfg) (ops : List Op) : ∀ s : S, InvD g s → InvA g s → InvT s → InvE g s → InvE g (run g s ops) := by
+  induction ops with
+  | nil => intro s _ _ _ h; exact h
+  | cons op ops ih =>
+    intro s h1 h2 h3 h4
+    exact ih _ (invD_step g s op h1 h3.tp) (invA_step g s op h1 h2 h3.tp) (invT_step g s op h3) (invE_step g s op h1 h4)
+
+/-- **C04 (ET: a report is due).** In ET mode `c04_armed` only says "registered" (EPOLLOUT is always in the
+    interest set and nothing disarms it); what matters there is that the kernel reports writability again
+    only after it refused or shortened a write. `edgeDue` is that ghost: set by EPOLL_CTL_ADD (which reports
+    the current readiness) and by every EAGAIN / short count of write, writev, sendfile (answers and request
+    sizes only: `directRefused`, `sendfileRefused`, `flushRefused`), consumed when EPOLLOUT is delivered —
+    and ET delivers EPOLLOUT only if it is set (`evTakeOp`). For every op sequence and all kernel answers:
+    an open, registered ET connection with a backlog is owed a report. (Hypothesis `early = false`: no call
+    was issued on a dialed conn before its connected callback — the API hands the conn out in that callback;
+    see `c04_et_edge_counterexample_early`. Interrupted direct writes are retried by the code, `directAns`.) -/
+theorem c04_et_edge (g : Cfg) (ops : List Op) :
+    let s := run g init ops
+    g.mode = .et → s.closed = false → s.reg = true → s.early = false → s.wl ≠ [] → s.edgeDue = true := by
+  intro s hm hc hr hy hw
+  obtain ⟨hd, ha⟩ := reach_inv (g := g) ⟨ops, rfl⟩
+  have he := invE_run g ops init (invD_init g) (invA_init g) invT_init (invE_init g)
+  exact he.et hm hc hd.nohang hr hy hw
+
+/-- the excluded case, made explicit: a call issued on a dialed conn BEFORE its connected callback leaves a
+    backlog; the connect event consumes the report without flushing, and ET owes nothing afterwards -/
+theorem c04_et_edge_counterexample_early :
+    let g : Cfg := ⟨.et, 0, 10, fun i => UInt8.ofNat i⟩
+    let s := run g init [.registerDial, .write [1, 2, 3] [.eagain], .evTake true false false [], .evEnd]
+    s.closed = false ∧ s.reg = true ∧ s.wl ≠ [] ∧ s.edgeDue = false ∧ s.early = true := by
+  decide
+
+/-- **C04 (the backlog drains without any further call).** From any reachable quiet state — open,
+    registered, no async connect in progress, the poller not inside an event of this connection — in which
+    the kernel keeps making room (every reported EPOLLOUT finds room for `N > 0` bytes, then is full again)
+    and no error event occurs: after at most `backlog` rounds of `[kernel reports EPOLLOUT, poller handles the
+    event]` the queue is empty, the connection is still open and the peer has received every accepted byte —
+    and each round's report IS delivered (LT / ONESHOT: the interest set was re-armed; ET: a report is due).
+    No Write / Writev / Sendfile / Close occurs in those rounds. All modes, any `N > 0`. -/
+theorem c04_drains (g : Cfg) (ops : List Op) (N : Nat) (hN : 0 < N) :
+    let s := run g init ops
+    Quiet s →
+    let t := run g s (List.replicate (backlog s.wl) (round N)).flatten
+    t.closed = false ∧ t.wl = [] ∧ t.wire = t.accepted ∧ t.accepted = s.accepted := by
+  intro s q t
+  have h4 : Inv4 g s := inv4_run g ops init (inv4_init g)
+  obtain ⟨r1, r2, r3, r4⟩ := drains_aux g N hN (backlog s.wl) s h4 q (Nat.le_refl _)
+  have hint := r1.d.integ r2.closed
+  rw [r3] at hint
+  exact ⟨r2.closed, r3, by simpa [pending] using hint, r4⟩
+
+/-- the quiet states are what every sequential use leaves behind, e.g. after registration and any calls -/
+example :
+    let g : Cfg := ⟨.oneshot, 0, 10, fun i => UInt8.ofNat i⟩
+    let s := run g init [.write [1, 2] [.wrote 1], .register, .sendfile 3 2 []]
+    Quiet s ∧ backlog s.wl = 3 ∧ (run g s (List.replicate 3 (round 2)).flatten).wire = [1, 2, 3, 4] := by
+  refine ⟨⟨by decide, by decide, by decide, by decide, by decide, by decide, by decide⟩, by decide, by decide⟩
 
 /-- **C04 (the conn's belief is right).** `isWAdded` holds exactly when a backlog exists (or an async
     connect is still in progress), and once registered the kernel's interest set agrees with it
@@ -87,54 +146,6 @@ theorem c04_progress (g : Cfg) (s : S) (n0 : Nat) (ks : List KAns) (hr : Reach g
     (hw : s.wl ≠ []) (hn0 : 0 < n0) : backlog (flush g s (.wrote n0 :: ks)).wl < backlog s.wl :=
   flush_progress g s n0 ks hc (reach_inv hr).1.pos hw hn0
 
-/-- flush looks at the queue and the closed flag only -/
-theorem flush_backlog_congr (g : Cfg) (s t : S) (ks : List KAns) (h1 : t.closed = s.closed) (h3 : t.wl = s.wl) :
-    backlog (flush g t ks).wl = backlog (flush g s ks).wl := by
-  have e : ∀ fuel (a b : S) (ks : List KAns), a.wl = b.wl →
-      (flushLoop g fuel a ks).wl.map Item.todo = (flushLoop g fuel b ks).wl.map Item.todo := by
-    intro fuel
-    induction fuel with
-    | zero => intro a b ks h; simp [flushLoop, h]
-    | succ fuel ih =>
-      intro a b ks h
-      unfold flushLoop
-      rw [← h]
-      split
-      · rw [wl_cResetRead, wl_cResetRead, h]
-      · simp only
-        split
-        · exact ih a b ks h
-        split
-        · rw [h]
-        · rw [h]
-        · exact ih a b _ h
-        · simp [closeNow]
-        · split
-          · exact ih a b _ h
-          split
-          · exact ih _ _ _ rfl
-          · exact ih _ _ _ rfl
-      · split
-        · exact ih a b ks h
-        split
-        · rw [h]
-        · rw [h]
-        · exact ih a b _ h
-        · simp [closeNow]
-        · simp only
-          split
-          · exact ih a b _ h
-          split
-          · exact ih _ _ _ rfl
-          · exact ih _ _ _ rfl
-  unfold flush
-  rw [h1, h3]
-  split
-  · rw [h3]
-  split
-  · rw [h3]
-  · simp only [backlog]; rw [e _ t s ks h3]
-
 /-- **C04 (the delivered event reaches flush).** In a reachable open state with a backlog and EPOLLOUT
     armed (no async connect in progress), a reported EPOLLOUT is delivered and handled by `flush`
     (so `c04_progress` applies to it). -/
@@ -157,13 +168,27 @@ theorem c04_event_flushes (g : Cfg) (s : S) (inn err : Bool) (ks : List KAns) (h
     exact flush_backlog_congr g s _ ks rfl rfl
   · simp [hm, hcn]
 
+/-- … and the due report is delivered and makes the poller flush: the step the harness injects is the
+    model's `evTakeOp`, which in ET needs `edgeDue`. -/
+theorem c04_et_report_flushes (g : Cfg) (s : S) (inn err : Bool) (ks : List KAns) (hr : Reach g s)
+    (hm : g.mode = .et) (hc : s.closed = false) (hreg : s.reg = true) (hy : s.early = false) (hw : s.wl ≠ [])
+    (hre : s.rearm = false) (hee : s.evErr = false) (hcn : s.connecting = false) (he : s.edgeDue = true) :
+    backlog (evTakeOp g s true inn err ks).wl = backlog (flush g s ks).wl := by
+  obtain ⟨hd, ha⟩ := reach_inv hr
+  have hk : s.kOut = true := by
+    have := ha.kout hc hreg; rw [hm] at this; simpa using this
+  have hdis : s.disarmed = false := (ha.nos (by rw [hm]; simp)).1
+  have h := c04_event_flushes g s inn err ks hr hc ⟨hreg, hk, hdis⟩ hre hee hcn
+  show backlog (evTake g s (true && (g.mode != .et || s.edgeDue)) inn err ks).wl = _
+  rw [he]; simpa using h
+
 /-! ### non-vacuity -/
 
 /-- LT: a backlog formed inside the open callback (before registration) — `reg = false` is the pending
     disjunct; after `register` EPOLLOUT is armed -/
 example :
-    let s1 := run g0 init [.write [1, 2, 3] (.wrote 1)]
-    let s2 := run g0 init [.write [1, 2, 3] (.wrote 1), .register]
+    let s1 := run g0 init [.write [1, 2, 3] [.wrote 1]]
+    let s2 := run g0 init [.write [1, 2, 3] [.wrote 1], .register]
     s1.closed = false ∧ s1.wl.length = 1 ∧ s1.reg = false ∧ s2.reg = true ∧ s2.kOut = true ∧ s2.disarmed = false := by
   decide
 
@@ -171,8 +196,8 @@ example :
     disarmed with the re-arm pending, afterwards it is armed again -/
 def g1 : Cfg := ⟨.oneshot, 0, 10, fun i => UInt8.ofNat i⟩
 example :
-    let s1 := run g1 init [.register, .write [1, 2, 3] (.wrote 1), .evTake true false false [.wrote 1, .eagain]]
-    let s2 := run g1 init [.register, .write [1, 2, 3] (.wrote 1), .evTake true false false [.wrote 1, .eagain], .evEnd]
+    let s1 := run g1 init [.register, .write [1, 2, 3] [.wrote 1], .evTake true false false [.wrote 1, .eagain]]
+    let s2 := run g1 init [.register, .write [1, 2, 3] [.wrote 1], .evTake true false false [.wrote 1, .eagain], .evEnd]
     s1.closed = false ∧ s1.wl.length = 1 ∧ s1.disarmed = true ∧ s1.rearm = true ∧
     s2.wl.length = 1 ∧ s2.reg = true ∧ s2.kOut = true ∧ s2.disarmed = false := by
   decide
@@ -180,15 +205,30 @@ example :
 /-- DialAsync (LT): a write inside the connected callback leaves a backlog; when the poller finishes the
     event (`evEnd`: `c.resetRead()`) EPOLLOUT stays armed -/
 example :
-    let s1 := run g0 init [.registerDial, .evTake true false false [], .write [1, 2, 3] (.wrote 1)]
-    let s2 := run g0 init [.registerDial, .evTake true false false [], .write [1, 2, 3] (.wrote 1), .evEnd]
+    let s1 := run g0 init [.registerDial, .evTake true false false [], .write [1, 2, 3] [.wrote 1]]
+    let s2 := run g0 init [.registerDial, .evTake true false false [], .write [1, 2, 3] [.wrote 1], .evEnd]
     s1.connEv = true ∧ s1.wl.length = 1 ∧ s2.connecting = false ∧ s2.wl.length = 1 ∧ s2.isWAdded = true ∧
     s2.kOut = true ∧ s2.closed = false := by
   decide
 
+/-- ET: a short direct write earns a report; the report is delivered, the flush hits EAGAIN and earns the
+    next one; a flush that drains leaves nothing due and a further EPOLLOUT is not delivered -/
+example :
+    let g : Cfg := ⟨.et, 0, 10, fun i => UInt8.ofNat i⟩
+    let s0 := run g init [.register, .evTake true false false [], .evEnd]
+    let s1 := run g init [.register, .evTake true false false [], .evEnd, .write [1, 2, 3, 4] [.eintr, .wrote 1]]
+    let s2 := run g init [.register, .evTake true false false [], .evEnd, .write [1, 2, 3, 4] [.eintr, .wrote 1],
+      .evTake true false false [.wrote 1, .eagain], .evEnd]
+    let s3 := run g init [.register, .evTake true false false [], .evEnd, .write [1, 2, 3, 4] [.eintr, .wrote 1],
+      .evTake true false false [.wrote 1, .eagain], .evEnd, .evTake true false false [.wrote 9], .evEnd]
+    let s4 := step g s3 (.evTake true false false [.wrote 9])
+    s0.edgeDue = false ∧ s1.edgeDue = true ∧ s1.wl.length = 1 ∧ s2.edgeDue = true ∧ s2.wire = [1, 2] ∧
+    s3.wl.length = 0 ∧ s3.edgeDue = false ∧ s3.wire = [1, 2, 3, 4] ∧ s4.wire = s3.wire := by
+  decide
+
 /-- progress: room for 2 bytes, backlog 3 → 1 -/
 example :
-    let s := run g0 init [.register, .write [1, 2, 3, 4] (.wrote 1)]
+    let s := run g0 init [.register, .write [1, 2, 3, 4] [.wrote 1]]
     backlog s.wl = 3 ∧ backlog (flush g0 s [.wrote 2, .eagain]).wl = 1 := by decide
 
 end ConnFull
